@@ -56,10 +56,16 @@ namespace nmtools::index
         // need start + 1 for such following case: 2::-?
         // for such case, allowed indices should be (0,1,2) (range of 3) hence start + 1
         else if constexpr (meta::is_index_v<start_t> && is_none_v<stop_t> && meta::is_index_v<step_t>) {
-            return (step_ < 0 && start >= 0) ? start + 1 : si - start;
+            // a negative start counts from the end of the axis:
+            // -k::step selects from si-k up to the end (k elements), -k::-step from si-k down to 0 (si-k+1 elements)
+            if (start < 0) {
+                return (step_ < 0) ? si + start + 1 : si - (si + start);
+            }
+            return (step_ < 0) ? start + 1 : si - start;
         }
         else if constexpr (meta::is_index_v<start_t> && is_none_v<stop_t>) {
-            return si - start;
+            // a negative start counts from the end of the axis: a[-k:] has k elements
+            return (start < 0) ? si - (si + start) : si - start;
         }
         // start is none, a.k.a. zero
         else if constexpr (is_none_v<start_t> && meta::is_index_v<stop_t>) {
@@ -137,7 +143,8 @@ namespace nmtools::index
             // example case:
             // a[0::]
             // a[-1::]
-            auto index = (start >= 0 ? start : stop - start) + at(indices,i_i);
+            // here stop is the length of the axis, a negative start counts from it
+            auto index = (start >= 0 ? start : stop + start) + at(indices,i_i);
             return (result_t)index;
             // return {start >= 0 ? start : stop - start, 1};
         }
@@ -270,9 +277,9 @@ namespace nmtools::index
                 _step  = step;
                 // return {si+start,step};
             } else /* if (start < 0 && step < 0) */ {
-                _start = start;
+                _start = si + start;
                 _step  = step;
-                // return {start, step};
+                // return {si+start, step};
             }
             auto index = _start + at(indices,i_i) * _step;
             return (result_t)index;
